@@ -456,6 +456,19 @@ func (e *Effects) elemsRaw(v ssa.Value, env *Env, d int) AbsVal {
 			}
 		}
 		return out
+	case *ssa.MakeSlice:
+		// make([]T, n) filled by index assignment: the stores into its elements
+		out := AbsVal{}
+		for _, r := range *x.Referrers() {
+			if ia, ok := r.(*ssa.IndexAddr); ok && ia.X == v {
+				for _, rr := range *ia.Referrers() {
+					if st, ok := rr.(*ssa.Store); ok && st.Addr == ia {
+						out = out.join(e.eval(st.Val, env, d+1))
+					}
+				}
+			}
+		}
+		return out
 	case *ssa.Const:
 		return AbsVal{}
 	}
